@@ -210,6 +210,8 @@ pub fn verify_batch(
         .iter()
         .map(|_| Scalar::from(gen_u128(&mut rng)))
         .collect();
+    #[cfg(all(curve25519_dalek_verif, feature = "std"))]
+    verif::observe(&zs);
 
     // Compute the basepoint coefficient, ∑ s[i]z[i] (mod l)
     let B_coefficient: Scalar = signatures
@@ -237,5 +239,28 @@ pub fn verify_batch(
         Ok(())
     } else {
         Err(InternalError::Verify.into())
+    }
+}
+
+/// Observation point for runtime monitors; only compiled with `--cfg curve25519_dalek_verif`.
+#[cfg(all(curve25519_dalek_verif, feature = "std"))]
+pub mod verif {
+    use curve25519_dalek::scalar::Scalar;
+    use std::sync::Mutex;
+
+    static OBSERVER: Mutex<Option<fn(&[Scalar])>> = Mutex::new(None);
+
+    /// Registers (or clears) the function shown the batch coefficients z_i of every `verify_batch` call.
+    pub fn set_coefficient_observer(f: Option<fn(&[Scalar])>) {
+        if let Ok(mut g) = OBSERVER.lock() {
+            *g = f;
+        }
+    }
+
+    pub(super) fn observe(zs: &[Scalar]) {
+        let f = OBSERVER.lock().map(|g| *g).unwrap_or(None);
+        if let Some(f) = f {
+            f(zs)
+        }
     }
 }
